@@ -626,6 +626,21 @@ def b_zip(eng, args, kwargs, fr, node):
     return PyObj('zip', args)
 
 
+def b_reversed(eng, args, kwargs, fr, node):
+    from .engine import UF
+    v = args[0]
+    if v.ty[0] != 'list' or v.ty[1] == ANY:
+        raise_unsupported('reversed() of %s' % (v.ty,))
+    r = eng.fresh(v.ty, 'reversed')
+    n = z3.Length(v.t)
+    eng.assume(z3.Length(r.t) == n)
+    eng.st.ghost.setdefault('reversed_of', {})[r.t.get_id()] = v
+    snap = eng.st.ghost.get('snapshots', {}).get(v.t.get_id())
+    if snap is not None:
+        eng.st.ghost.setdefault('rev_snapshots', {})[r.t.get_id()] = (v, snap)
+    return r
+
+
 def b_implies(eng, args, kwargs, fr, node):
     return vbool(z3.Implies(eng.truth(args[0]), eng.truth(args[1])))
 
@@ -668,7 +683,7 @@ BUILTIN_FUNCS = {
     'int': None,
     'unpack_tuple': b_unpack_tuple, 'calcsize': b_calcsize,
     'len': b_len, 'isinstance': b_isinstance, 'min': b_min, 'max': b_max, 'abs': b_abs, 'range': b_range,
-    'enumerate': b_enumerate, 'zip': b_zip, 'implies': b_implies, 'ite': b_ite, 'repr': b_repr,
+    'enumerate': b_enumerate, 'reversed': b_reversed, 'zip': b_zip, 'implies': b_implies, 'ite': b_ite, 'repr': b_repr,
 }
 
 
